@@ -227,6 +227,11 @@ def present(rng, atoms, max_atoms=120, allow_supercell=True):
         P, det = cells.random_unimodular(rng, steps=2, maxmult=1), 1
         if round(np.linalg.det(P)) < 0:
             P[0] *= -1
+    if rng.random() < 0.2:
+        # a left-handed description of the same crystal (unimodular / supercell matrix with negative determinant)
+        P = P.copy()
+        P[[0, 1]] = P[[1, 0]]
+        info["left_handed"] = True
     if not np.array_equal(P, np.eye(3, dtype=int)):
         a = make_supercell(a, P, wrap=False)
     info["P"] = P.tolist(); info["det"] = det
